@@ -1,0 +1,36 @@
+// Licensed to Apache Software Foundation (ASF) under one or more contributor
+// license agreements. See the NOTICE file distributed with
+// this work for additional information regarding copyright
+// ownership. Apache Software Foundation (ASF) licenses this file to you under
+// the Apache License, Version 2.0 (the "License"); you may
+// not use this file except in compliance with the License.
+// You may obtain a copy of the License at
+//
+//     http://www.apache.org/licenses/LICENSE-2.0
+//
+// Unless required by applicable law or agreed to in writing,
+// software distributed under the License is distributed on an
+// "AS IS" BASIS, WITHOUT WARRANTIES OR CONDITIONS OF ANY
+// KIND, either express or implied.  See the License for the
+// specific language governing permissions and limitations
+// under the License.
+
+//go:build verif
+
+// Contracts for the iterator interfaces of the row-path executors (comment-only; read by /verif/govc).
+
+package executor
+
+//@ section C09
+//
+// An iterator over query results, seen as a cursor into the (ordered) result sequence: pos is the (ghost) number of
+// Next calls that returned true, i.e. the 1-based position of the current item; done records exhaustion.
+//@ type MIterator
+//@   ghost pos int
+//@   ghost done bool
+//@ func MIterator.Next
+//@   assumed interface method: advances the cursor by one item, or reports exhaustion (and stays exhausted)
+//@   modifies recv.pos
+//@   modifies recv.done
+//@   ensures  result ==> !old(recv.done) && recv.pos == old(recv.pos) + 1 && !recv.done
+//@   ensures  !result ==> recv.done && recv.pos == old(recv.pos)
